@@ -217,7 +217,7 @@ pub fn run(ctx: &Ctx) -> Report {
                 if let Ok((_, e)) = &r {
                     rep.extra_add("operations_that_returned_an_error_(left_to_C05)", *e as u64);
                 }
-                rep.label(match s { Sched::Walk(_) => "strategy:random walk", Sched::Pct { .. } => "strategy:PCT", _ => "strategy:single preemption (enumerated)" });
+                rep.label(match s { Sched::Walk(_) => "strategy:random walk", Sched::Pct { .. } => "strategy:PCT", Sched::Preempt2 { .. } => "strategy:two preemptions (sampled)", _ => "strategy:single preemption (enumerated)" });
                 rep.label(if g.layout.kind >= 2 { "via Cache (with ensure)" } else { "via plain::Cache" });
                 if g.layout.dirs_missing {
                     rep.label("cache directory initially missing");
